@@ -103,7 +103,7 @@ def render(d):
 def mk(layout):
     return Sub(layout, oracle, strategy=lambda tier, lay=layout: G.description(layout=lay), validate=G.validate,
                nontrivial=nontrivial, classes=classes, render=render,
-               n={"quick": 700, "thorough": 12000}, shards={"quick": 4, "thorough": 4},
+               n={"quick": 550, "thorough": 12000}, shards={"quick": 4, "thorough": 4},
                essential=("groups=2", "groups=3", "sec=range", "sec=list", "tr=words", "tr=abbr", "tr=dashed", "tr=lower",
                           "multiline_block"))
 
